@@ -22,8 +22,8 @@ EVAL_COUNTER = "jobs_judged"
 REQUIRED = ["jobs_judged", "own_executed", "foreign_left_alone", "overrides_across_queues", "two_worker_runs", "tables_with_bystander_workers"]
 CASE_TIMEOUT = 150
 
-NAMES = ["alpha", "beta", "gamma", "delta", "eps", "zeta"]
-QUEUES = ["qa", "qb", "qc"]
+NAMES = ["alpha", "alpha2", "al", "beta", "gamma", "delta"]  # names that are prefixes of each other: topic filters must match whole names
+QUEUES = ["qa", "qa2", "q"]  # likewise for queue names (broker key prefixes)
 
 
 def gen_cases(tier, seed):
